@@ -114,6 +114,13 @@ func newSimApp(script string, seed int64) *simApp {
 			ctx.Scope().Stop()
 			return nil
 		}),
+		// killscope kills the command's scope (an error: context.Canceled) and returns nil itself
+		mk("killscope", func(ctx app.IOContext) error {
+			id, _ := arg(ctx)
+			sa.log("fail", id) // for the oracles a kill is a failure of the body
+			ctx.Scope().Kill()
+			return nil
+		}),
 		mk("fail", func(ctx app.IOContext) error {
 			id, _ := arg(ctx)
 			sa.log("fail", id)
